@@ -198,6 +198,9 @@ def unit_init(prop):
         from contracts import standardize_save
         jobs = [("contracts.standardize_init", "generate", (prop, i)) for i in range(len(cases()))]
         tc = getattr(standardize_save, "to_case", None)
+        if prop == "C16":
+            from contracts import standardize
+            return run_parallel("standardize_init", jobs, to_case=standardize.to_case, replay_module="rtc.c16")
         return run_parallel("standardize_init", jobs, to_case=tc, replay_module="rtc.c17")
     unit.__name__ = "standardize_init"
     return unit
